@@ -355,7 +355,7 @@ class World(object):
             'randint': NativeFunc('random.randint', lambda ex, a, k: ex.fresh_int('randint', a[0], a[1])),
         })
         mod('itertools', {
-            'islice': Missing('islice'), 'count': Missing('count'),
+            'islice': Missing('islice'), 'count': NativeFunc('itertools.count', _count),
             'chain': NativeFunc('chain', lambda ex, a, k: SList([x for it in a for x in N.iterate(ex, it)])),
         })
         mod('operator', {})
@@ -675,6 +675,17 @@ def _random_choice(ex, a, k):
             return N.select_concrete(ex, items, i)
         return items[ex.choose(len(items))]
     raise Unsupported('random.choice')
+
+
+class CountVal(object):
+    def __init__(self, start, step):
+        self.start, self.step = start, step
+
+
+def _count(ex, a, k):
+    start = a[0] if a else k.get('start', 0)
+    step = a[1] if len(a) > 1 else k.get('step', 1)
+    return CountVal(start, step)
 
 
 def _reduce(ex, a, k):
